@@ -357,4 +357,98 @@ theorem decode_standardAnswer (S : Schema) (h : DecodeOK S) : decode (standardAn
     root_dec S S.query h.query, root_dec S S.mutation h.mutation, root_dec S S.subscription h.subscription, ht, hd, answerA]
   rfl
 
+/-! ### from the decidable feature predicate -/
+
+theorem decodeOK_of {S : Schema} (h : supportedC15 S = true) : DecodeOK S := by
+  have hF := full15_of h
+  simp only [supportedC15, Bool.and_eq_true, decide_eq_true_eq, List.all_eq_true] at h
+  obtain ⟨⟨⟨⟨⟨⟨⟨⟨⟨⟨_, _⟩, htok⟩, hdok⟩, _⟩, _⟩, _⟩, _⟩, _⟩, _⟩, _⟩ := h
+  have found_of_user : ∀ n, isUserType S n = true → (S.type? n).isSome = true := by
+    intro n hn
+    unfold isUserType at hn
+    cases hty : S.type? n <;> simp_all
+  refine ⟨?_, ?_, ?_, ?_, ?_⟩
+  · intro td hm
+    have := htok td hm
+    unfold typeOK at this
+    simp only [Bool.and_eq_true] at this
+    exact refsOK_of this.1
+  · intro d hm a ha
+    have := hdok d hm
+    unfold directiveOK at this
+    simp only [Bool.and_eq_true, List.all_eq_true, found] at this
+    exact this.1 a ha
+  · intro n hn
+    obtain ⟨q, hq, hqu⟩ := hF.query
+    rw [hq] at hn; cases hn
+    exact found_of_user _ hqu
+  · intro n hn
+    exact found_of_user _ (hF.mutation n hn).1
+  · intro n hn
+    exact found_of_user _ (hF.subscription n hn).1
+
+
+/-! ### ok-or-panic -/
+
+theorem mapM_ok_or_panic {α β γ : Type} (f : β → Except Err γ) (g : α → β) (h : α → γ) :
+    (xs : List α) → (∀ x ∈ xs, f (g x) = .ok (h x) ∨ f (g x) = .error .panic) →
+      (xs.map g).mapM f = .ok (xs.map h) ∨ (xs.map g).mapM f = .error .panic
+  | [], _ => Or.inl rfl
+  | x :: xs, hx => by
+    simp only [List.map_cons, List.mapM_cons]
+    rcases hx x (List.mem_cons_self) with h1 | h1 <;> rw [h1]
+    · rcases mapM_ok_or_panic f g h xs (fun y hy => hx y (List.mem_cons_of_mem _ hy)) with h2 | h2 <;> rw [h2]
+      · exact Or.inl rfl
+      · exact Or.inr rfl
+    · exact Or.inr rfl
+
+/-- a reference that `ast.Type` can express and that names a type of the schema, of any depth -/
+def refAnyDepth (S : Schema) (t : TypeRef) : Prop := t.normal = true ∧ (S.type? t.name).isSome = true
+
+theorem parse_trA_any {S : Schema} {t : TypeRef} (h : refAnyDepth S t) :
+    parseTypeRef (trA S t) = .ok t ∨ parseTypeRef (trA S t) = .error .panic := by
+  by_cases hd : t.depth < typeRefLevels
+  · exact Or.inl (parseTypeRef_trunc_ok _ (kindsOK S) t h.1 _ hd)
+  · exact Or.inr (parseTypeRef_trunc_panic _ t h.1 _ (by omega))
+
+
+/-! ### evaluation helpers for the witnesses -/
+
+namespace C15Witness
+
+/-- decidable form of "the reconstruction succeeds and is equivalent" -/
+def faithful (S : Schema) : Bool :=
+  match rebuild (standardAnswer S) with
+  | .ok R =>
+    decide ((normSchema R.schema).types = (normSchema S).types)
+    && decide ((normSchema R.schema).directives = (normSchema S).directives)
+    && decide (R.schema.query = S.query) && decide (R.schema.mutation = S.mutation)
+    && decide (R.schema.subscription = S.subscription)
+  | .error _ => false
+
+theorem not_faithful {S : Schema} (h : faithful S = false) :
+    ¬ ∃ R, rebuild (standardAnswer S) = .ok R ∧ normSchema R.schema = normSchema S := by
+  rintro ⟨R, hR, hn⟩
+  unfold faithful at h
+  rw [hR] at h
+  have h1 : (normSchema R.schema).types = (normSchema S).types := by rw [hn]
+  have h2 : (normSchema R.schema).directives = (normSchema S).directives := by rw [hn]
+  have h3 : R.schema.query = S.query := by have := congrArg Schema.query hn; exact this
+  have h4 : R.schema.mutation = S.mutation := by have := congrArg Schema.mutation hn; exact this
+  have h5 : R.schema.subscription = S.subscription := by have := congrArg Schema.subscription hn; exact this
+  simp [h1, h2, h3, h4, h5] at h
+
+
+def isPanic (r : Except Err Rebuilt) : Bool :=
+  match r with
+  | .error .panic => true
+  | _ => false
+theorem eq_panic {r : Except Err Rebuilt} (h : isPanic r = true) : r = .error .panic := by
+  unfold isPanic at h
+  split at h
+  · rfl
+  · cases h
+
+end C15Witness
+
 end PebblesVerif
